@@ -173,3 +173,21 @@ Example ex_utf8 :
   JsonTextProofs.sclean StdJson (b "é😀 日本") = true /\
   JsonTextProofs.sclean StdJson [97; 255]%N = false /\ JsonTextProofs.sclean StdJson [237; 160; 128]%N = false.
 Proof. repeat split; vm_compute; reflexivity. Qed.
+
+(** ** the response side and the frame level: concrete bytes *)
+Example ex_ws_frames :
+  WireModel.frame_answer WsTransportWs (b "a<1") [b "{""data"":{""x"":1}}"] =
+  WireModel.WaFrames [ b "{""id"":""a\u003c1"",""type"":""next"",""payload"":{""data"":{""x"":1}}}";
+                       b "{""id"":""a\u003c1"",""type"":""complete""}" ]
+  /\ WireModel.frame_answer HttpGet (b "ignored") [b "{""data"":{""x"":1}}"] =
+     WireModel.WaHttp {| WireModel.hw_status := 200; WireModel.hw_ctype := b "application/json"; WireModel.hw_body := Some (b "{""data"":{""x"":1}}") |}.
+Proof. split; vm_compute; reflexivity. Qed.
+
+(** a frame as json.Unmarshal into Message reads it: names folded, later duplicates win, null keeps
+    the string, the payload's raw bytes; a number for the id, or bytes after the value: no message *)
+Example ex_frame_split :
+  FrameText.frame_of_text ex_numval (b " {""TYPE"":""x"",""payload"": [7 , {""a"":null}] ,""id"":null,""type"":""subscribe"",""extra"":7} ")
+  = Some {| f_type := b "subscribe"; f_id := []; f_payload := Some (b "[7 , {""a"":null}]") |}
+  /\ FrameText.frame_of_text ex_numval (b "{""id"":5,""type"":""subscribe""}") = None
+  /\ FrameText.frame_of_text ex_numval (b "{""type"":""subscribe""}}") = None.
+Proof. repeat split; vm_compute; reflexivity. Qed.
